@@ -27,7 +27,10 @@ type shp struct {
 	// bites, and so does anything that multiplies two determinants: underflow)
 	G4 geometry.Geometry
 	// fifth realisation: small and far away (lattice step 2^-12 at about 2^19)
-	G5  geometry.Geometry
+	G5 geometry.Geometry
+	// sixth realisation: every position written twice in a row (zero-length
+	// segments: the same point set)
+	G6  geometry.Geometry
 	tag string // curated name, "" for enumerated
 }
 
@@ -44,7 +47,29 @@ func movedBack(e *exact.Shape) geometry.Geometry {
 }
 
 func mkShp(e *exact.Shape, cfg2 *geometry.IndexOptions) *shp {
-	return &shp{E: e, G: geomOf(e, ident, idxNone), G2: geomOf(e, ident, cfg2), G3: movedBack(e), G4: geomOf(e, tinyXf, idxNone), G5: geomOf(e, farFineXf, idxNone)}
+	return &shp{E: e, G: geomOf(e, ident, idxNone), G2: geomOf(e, ident, cfg2), G3: movedBack(e), G4: geomOf(e, tinyXf, idxNone), G5: geomOf(e, farFineXf, idxNone), G6: doubled(e)}
+}
+
+// doubled: the shape with every position of every ring / line written twice.
+func doubled(e *exact.Shape) geometry.Geometry {
+	dbl := func(ps []exact.P) []exact.P {
+		out := make([]exact.P, 0, 2*len(ps))
+		for _, p := range ps {
+			out = append(out, p, p)
+		}
+		return out
+	}
+	switch e.Kind {
+	case exact.KLine:
+		return geomOf(&exact.Shape{Kind: exact.KLine, Line: dbl(e.Line)}, ident, idxNone)
+	case exact.KPoly:
+		d := &exact.Shape{Kind: exact.KPoly, Ext: dbl(e.Ext)}
+		for _, h := range e.Holes {
+			d.Holes = append(d.Holes, dbl(h))
+		}
+		return geomOf(d, ident, idxNone)
+	}
+	return geomOf(e, ident, idxNone)
 }
 
 func poolPoints(k, off int) []*shp {
@@ -508,6 +533,23 @@ func evalPair(c *rt.Case) (bool, string, string, error) {
 	}
 	if c.Cfg == "tiny" {
 		ga, gb = geomOf(ea, tinyXf, idxNone), geomOf(eb, tinyXf, idxNone)
+	}
+	if c.Cfg == "doubled" {
+		if !t.isIdent() {
+			return false, "", "", fmt.Errorf("doubled realisation is defined for the identity transform")
+		}
+		ga, gb = doubled(ea), doubled(eb)
+		// replay: the three combinations the check asks
+		switch c.Op {
+		case "intersects":
+			want := exact.Intersects(ea, eb)
+			g1, g2, g3 := libIntersects(ga, gb), libIntersects(gb, ga), libIntersects(ga, geomOf(eb, ident, idxNone))
+			return g1 != want || g2 != want || g3 != want, fmt.Sprint(want), fmt.Sprintf("%v / %v / %v", g1, g2, g3), nil
+		case "contains":
+			want := exact.Contains(ea, eb)
+			g1, g2, g3 := libContains(ga, gb), libContains(ga, geomOf(eb, ident, idxNone)), libContains(geomOf(ea, ident, idxNone), gb)
+			return g1 != want || g2 != want || g3 != want, fmt.Sprint(want), fmt.Sprintf("%v / %v / %v", g1, g2, g3), nil
+		}
 	}
 	if c.Cfg == "moved" {
 		if !t.isIdent() {
